@@ -1,6 +1,8 @@
 package main
 
 import (
+	"runtime/pprof"
+	"time"
 	"encoding/json"
 	"flag"
 	"fmt"
@@ -32,11 +34,20 @@ func main() {
 		usage()
 	}
 	cmd := os.Args[1]
+	if pf := os.Getenv("VERIF_PPROF"); pf != "" {
+		f, _ := os.Create(pf)
+		pprof.StartCPUProfile(f)
+		go func() {
+			time.Sleep(30 * time.Second)
+			pprof.StopCPUProfile()
+			f.Close()
+		}()
+	}
 	fs := flag.NewFlagSet(cmd, flag.ExitOnError)
 	tier := fs.String("tier", envOr("VERIF_TIER", "quick"), "quick|thorough")
 	repo := fs.String("repo", envOr("VERIF_REPO", "/repo"), "repository root")
 	verif := fs.String("verif", envOr("VERIF_DIR", "/verif"), "verif root")
-	solver := fs.String("solver", envOr("VERIF_SOLVER", "z3"), "solver binary")
+	solver := fs.String("solver", envOr("VERIF_SOLVER", defaultSolver()), "solver binary")
 	workers := fs.Int("j", 14, "parallel harnesses")
 	verbose := fs.Bool("v", false, "verbose")
 	noReplay := fs.Bool("no-replay", false, "skip native replay (debugging only)")
@@ -113,4 +124,13 @@ func main() {
 	default:
 		usage()
 	}
+}
+
+func defaultSolver() string {
+	for _, p := range []string{"/usr/local/bin/z3-new", "/opt/veriftools/pyvenv/bin/z3"} {
+		if _, err := os.Stat(p); err == nil {
+			return p
+		}
+	}
+	return "z3"
 }
